@@ -23,12 +23,17 @@ ASSUMPTIONS = [
     "interned_roundtrip: distinct values of one type occurring in the structure (and in the decoder-side interner) "
     "have distinct 128-bit hashes — explicit hypothesis `hinj`; the correspondence also runs a 2-bit hasher where "
     "it fails and checks that model and code then go wrong in the same way",
-    "interned handles decoded from one structure stay alive while it is decoded (no weak reference dies in between); for "
-    "nested handles this includes: a value that is alive in the decoder-side interner holds inner handles that were "
-    "interned through the same interner (hypothesis `IOk`: every live entry is canonical) — with an inner handle made by "
-    "`Interned::new_duplicating` the freshly decoded inner allocation is dropped together with the decoded payload when "
-    "`intern` returns the live outer value, and a later reference to it misses (`expect` panics): finding F61, reproduced on "
-    "every run by the harness probe `nested_boundary_probe`, fix proposal fixes/F61-decode-keeps-decoded-handles-alive.diff",
+    "interned handles decoded from one structure stay alive until the top-level decode call returns: since /repo 8f43b2a "
+    "(finding F61, fixed) this is what the code does — the decode session holds a clone of every handle it produced — and "
+    "the model's `dec true`; `dec false` is the decoder before that commit (allocations made while reading a payload die when "
+    "`intern` returns an equal live value and drops the payload), with a decide-checked witness of the historical panic",
+    "decoder-side interner of the nested theorems: interned_roundtrip_nested_weak / interned_sharing_nested_weak need only "
+    "`IOkW` — every live entry's payload is in the collision-free universe and is filed under its own hash (integrity, C15's "
+    "`canonical`); live values may hold `Interned::new_duplicating` copies the interner does not know.  They give the exact "
+    "round trip and canonicity/sharing for every handle the decode produced (`handlesAbove I.length`: not descending into "
+    "allocations that existed before the call — what a non-canonical live value holds inside cannot be claimed canonical).  "
+    "interned_roundtrip_nested / interned_sharing_nested / interned_roundtrip_history (hypothesis `IOk`: live entries "
+    "canonical at every depth) are the instance threshold = 0 of the same proof and give canonicity at every depth",
     "the decoder-side interner of interned_roundtrip / interned_roundtrip_nested holds LIVE entries only: a dead weak entry "
     "(value interned or decoded earlier, every handle dropped, no vacuum since) is modelled as an absent one, which is how "
     "`intern`, `intern_unsized` and `get_from_hash` treat it in the code (C15's LTS has the dead entries and proves "
